@@ -66,13 +66,15 @@ fn build_postfix_expression(
             Operation::LPar => stack.push(Operation::LPar),
             // if we get `)` push operators from the stack to the postfix expression untill we
             // get `(` on stack
-            Operation::RPar => {
-                while stack.last() != Some(&Operation::LPar) {
-                    postfix_expression.push(stack.pop().unwrap());
+            Operation::RPar => loop {
+                match stack.pop() {
+                    // pop the `(` from stack
+                    Some(Operation::LPar) => break,
+                    Some(operator) => postfix_expression.push(operator),
+                    // there is no `(` for this `)`
+                    None => return Err(malformed_expression(op, expression)),
                 }
-                // pop the `(` from stack
-                stack.pop();
-            }
+            },
             // if stack is empty or the last operator on stack is `(` or we got an operator
             // with higher priority than stack top operator -- push obtained operator to the
             // stack
@@ -99,6 +101,10 @@ fn build_postfix_expression(
 
     // push remaining on the stack operators to the postfix expression
     while let Some(element) = stack.pop() {
+        // a `(` which was never closed
+        if element == Operation::LPar {
+            return Err(malformed_expression(op, expression));
+        }
         postfix_expression.push(element);
     }
 
@@ -119,21 +125,27 @@ fn evaluate_postfix_expression(
             Operation::Value(value) => stack.push(*value),
             // if the operation is an operator
             _ => {
-                let right = stack.pop().expect("stack is empty");
-                let left = stack.pop().expect("stack is empty");
+                // an operator without two operands (e.g. `2**3` or `1+`)
+                let (right, left) = match (stack.pop(), stack.pop()) {
+                    (Some(right), Some(left)) => (right, left),
+                    _ => return Err(malformed_expression(op, expression)),
+                };
                 stack.push(compute_statement(op, left, right, operation)?);
             }
         }
     }
 
     // get the result from the stack
-    stack.pop().ok_or_else(|| {
-        ParsingError::invalid_const_value(
-            op,
-            expression,
-            &format!("constant expression {} is incorrect", op),
-        )
-    })
+    stack.pop().ok_or_else(|| malformed_expression(op, expression))
+}
+
+/// Returns the error reported for an expression which is not well formed.
+fn malformed_expression(op: &Token, expression: &str) -> ParsingError {
+    ParsingError::invalid_const_value(
+        op,
+        expression,
+        &format!("constant expression {} is incorrect", op),
+    )
 }
 
 // HELPER FUNCTIONS
